@@ -93,7 +93,7 @@ def run_k10(tier, seed):
         chunk = ilines[b:b + shard]
         try:
             p = subprocess.run([bins["k3"]], input="\n".join(chunk) + "\n", stdout=subprocess.PIPE,
-                               stderr=subprocess.PIPE, text=True, env=ENV, timeout=120)
+                               stderr=subprocess.PIPE, text=True, errors="replace", env=ENV, timeout=120)
             got = p.stdout.split("\n")[:-1]
             for k, g in enumerate(got[:len(chunk)]):
                 iout[b + k] = g
@@ -101,7 +101,7 @@ def run_k10(tier, seed):
             for k, line in enumerate(chunk):
                 try:
                     p = subprocess.run([bins["k3"]], input=line + "\n", stdout=subprocess.PIPE,
-                                       stderr=subprocess.PIPE, text=True, env=ENV, timeout=20)
+                                       stderr=subprocess.PIPE, text=True, errors="replace", env=ENV, timeout=20)
                     g = p.stdout.split("\n")[:-1]
                     iout[b + k] = g[0] if g else "<no output>"
                 except subprocess.TimeoutExpired:
